@@ -65,6 +65,10 @@ void vf_sample(const char *fmt, ...);        /* first few per worker kept */
 /* Current case: written into the supervisor slot; used as replay spec. */
 void vf_case(const char *fmt, ...);
 const char *vf_case_get(void);
+/* CPU-time watchdog (see vf_kit.c): a case that burns tick_s*ticks CPU-seconds without reaching the next vf_case() is
+ * reported as a violation of kind "hang" and the worker stops.  vf_main arms a default; tick_s = 0 disarms. */
+void vf_watchdog(int tick_s, int ticks);
+void vf_watchdog_fn(const char *const volatile *fnp); /* where the name of the API call in progress is kept, for the report */
 /* Report a violation.  kind: short class; fn: API function judged; key:
  * canonical hash of the minimal input; sigs: comma separated mechanism
  * signatures computed on this violation's own data (may be ""); detail:
